@@ -135,3 +135,132 @@ func (m *verifMux) ServeHTTP(w http.ResponseWriter, r *http.Request) {
 func verifURL(scheme, host, path string) *url.URL {
 	return &url.URL{Scheme: scheme, Host: host, Path: path}
 }
+
+// verifStreamRecorder is the ResponseWriter of the streaming hop: the body goes to
+// a pipe that the client reads as the response body.
+type verifStreamRecorder struct {
+	hdr         http.Header
+	sent        http.Header
+	code        int
+	wroteHeader bool
+	ready       chan struct{}
+	pw          *io.PipeWriter
+	body        []byte // everything written, for inspection
+	cut         int    // if >= 0: the connection breaks after this many body bytes
+}
+
+func (r *verifStreamRecorder) Header() http.Header {
+	if r.hdr == nil {
+		r.hdr = http.Header{}
+	}
+	return r.hdr
+}
+
+func (r *verifStreamRecorder) WriteHeader(code int) {
+	if r.wroteHeader {
+		return
+	}
+	r.wroteHeader = true
+	r.code = code
+	r.sent = http.Header{}
+	for k, vs := range r.Header() {
+		r.sent[k] = append([]string(nil), vs...)
+	}
+	close(r.ready)
+}
+
+func (r *verifStreamRecorder) Write(b []byte) (int, error) {
+	if !r.wroteHeader {
+		r.WriteHeader(http.StatusOK)
+	}
+	r.body = append(r.body, b...)
+	return r.pw.Write(b)
+}
+
+func (r *verifStreamRecorder) Flush() {}
+
+// verifStreamTransport runs the handler in its own goroutine; RoundTrip returns
+// once the response header is written, the response body is a pipe. When the
+// client's context ends, the transport fails the response body with the context's
+// error and cancels the server's request context (what net/http does when the
+// client goes away).
+type verifStreamTransport struct {
+	handler    http.Handler
+	requests   int
+	tls        *tls.ConnectionState
+	remoteAddr string
+	rec        *verifStreamRecorder
+	done       chan struct{} // closed when the handler has returned
+}
+
+func (t *verifStreamTransport) RoundTrip(req *http.Request) (*http.Response, error) {
+	t.requests++
+	cctx := req.Context()
+	if err := cctx.Err(); err != nil {
+		return nil, err
+	}
+	sctx, scancel := context.WithCancel(context.Background())
+	body := req.Body
+	if body == nil {
+		body = http.NoBody
+	}
+	sreq := (&http.Request{
+		Method: req.Method, URL: req.URL, Proto: "HTTP/1.1", ProtoMajor: 1, ProtoMinor: 1,
+		Header: req.Header, Body: body, Host: req.Host, RemoteAddr: t.remoteAddr, TLS: t.tls,
+	}).WithContext(sctx)
+	pr, pw := io.Pipe()
+	rec := &verifStreamRecorder{ready: make(chan struct{}), pw: pw, cut: -1}
+	t.rec = rec
+	t.done = make(chan struct{})
+	go func() {
+		t.handler.ServeHTTP(rec, sreq)
+		if !rec.wroteHeader {
+			rec.WriteHeader(http.StatusOK)
+		}
+		pw.Close()
+		scancel()
+		close(t.done)
+	}()
+	go func() {
+		select {
+		case <-cctx.Done():
+			pr.CloseWithError(cctx.Err())
+			scancel()
+		case <-t.done:
+		}
+	}()
+	select {
+	case <-rec.ready:
+	case <-cctx.Done():
+		return nil, cctx.Err()
+	}
+	return &http.Response{
+		StatusCode: rec.code, Status: fmt.Sprintf("%d %s", rec.code, http.StatusText(rec.code)),
+		Proto: "HTTP/1.1", ProtoMajor: 1, ProtoMinor: 1,
+		Header: rec.sent, Body: pr, TLS: t.tls, Request: req,
+	}, nil
+}
+
+// verifHTTP builds a client channel and server for services a and b.
+func verifHTTP(h *verifHooks, opts ...ServerOption) (*Channel, *verifTransport, *verifStreamTransport) {
+	srv := NewServer(opts...)
+	srv.RegisterService(zzfix.Desc("a"), &zzfix.Srv{Name: "a", Hooks: h})
+	srv.RegisterService(zzfix.Desc("b"), &zzfix.Srv{Name: "b", Hooks: h})
+	ut := &verifTransport{handler: srv, remoteAddr: "1.2.3.4:5"}
+	st := &verifStreamTransport{handler: srv, remoteAddr: "1.2.3.4:5"}
+	return &Channel{Transport: &verifRouter{unary: ut, stream: st}, BaseURL: verifURL("http", "h", "/")}, ut, st
+}
+
+// verifRouter picks the inline hop for unary exchanges and the piped hop for
+// streaming ones (by content type, as the handlers themselves do).
+type verifRouter struct {
+	unary  *verifTransport
+	stream *verifStreamTransport
+}
+
+func (r *verifRouter) RoundTrip(req *http.Request) (*http.Response, error) {
+	if req.Header.Get("Content-Type") == StreamRpcContentType_V1 {
+		return r.stream.RoundTrip(req)
+	}
+	return r.unary.RoundTrip(req)
+}
